@@ -280,6 +280,8 @@ class Ctx:
             if key not in [h["key"] for h in self.known_hits]:
                 self.known_hits.append({"key": key, "what": k.get("what", what)})
             return
+        if any(v["key"] == key for v in self.violations):
+            return
         REPLAYS.mkdir(exist_ok=True)
         h = hashlib.sha1((self.pid + key).encode()).hexdigest()[:10]
         path = REPLAYS / f"{self.pid}-{h}.json"
